@@ -466,12 +466,16 @@ def evaluate__sum(self: XPathFunction, context: ta.ContextType = None) -> ta.One
     elif any(isinstance(x, (StringProxy, AnyURI)) for x in values):
         raise self.error('FORG0006', 'cannot apply fn:sum() to string-based types')
     elif any(isinstance(x, float) and math.isnan(x) for x in values):
+        if all(isinstance(x, (Float, int, decimal.Decimal)) for x in values):
+            return Float(math.nan)  # no xs:double value: the sum is an xs:float
         return math.nan
     elif all(isinstance(x, Float) for x in values):
         result = sum(values)
     else:
         try:
             result = sum(self.number_value(x) for x in values)
+            if all(isinstance(x, (Float, int, decimal.Decimal)) for x in values):
+                result = Float(result)  # no xs:double value: the sum is an xs:float
         except TypeError:
             if self.parser.version == '1.0':
                 return math.nan
